@@ -52,6 +52,8 @@ type Contract struct {
 	File         string
 	Line         int
 	Asserts      []Clause
+	Defines      []Clause // iface: definitional postconditions (assumed at calls, not checked on implementers)
+	Views        []Clause // type: definitional axioms tying ghost observers to the representation (assumed)
 }
 
 func (c *Contract) Key() string { return c.Pkg + "." + c.Func }
@@ -60,7 +62,7 @@ var clauseKW = map[string]bool{
 	"func": true, "iface": true, "type": true, "lemma": true, "property": true, "requires": true, "ensures": true,
 	"panics_if": true, "panics_only_if": true, "panics_iff": true, "maypanic": true, "modifies": true,
 	"let": true, "loop": true, "invariant": true, "decreases": true, "inline": true, "trusted": true,
-	"recover": true, "bounded_view": true, "end": true,
+	"recover": true, "bounded_view": true, "end": true, "defines": true, "view": true,
 }
 
 type ContractSet struct {
@@ -212,6 +214,10 @@ func parseContractText(text, path, pkg string, cs *ContractSet) error {
 				c.Trusted = true
 			case "recover":
 				c.Recover = true
+			case "defines":
+				c.Defines = append(c.Defines, cl)
+			case "view":
+				c.Views = append(c.Views, cl)
 			case "bounded_view":
 				c.BoundedView = append(c.BoundedView, cl)
 			case "end":
@@ -230,6 +236,7 @@ func parseContractText(text, path, pkg string, cs *ContractSet) error {
 		case "type":
 			if old, ok := cs.Types[pkg+"."+c.TypeName]; ok {
 				old.Invariant = append(old.Invariant, c.Invariant...)
+				old.Views = append(old.Views, c.Views...)
 			} else {
 				cs.Types[pkg+"."+c.TypeName] = c
 			}
